@@ -110,25 +110,28 @@ G3(c, a) ==
      ELSE Goto(c, "g7") /\ lock' = "none"
   /\ UNCHANGED <<ch, closed, todo, nextRes, slot, rnd>> /\ uCtr /\ uScale /\ uEnv /\ uGhost
 
-(* g4: AddCapacityResource: capacity := rp.capacity.Get(); if capacity < 0 || capacity >= max return false *)
+(* g4: AddCapacityResource (as repaired by fix commit 98e158f): for { capacity := rp.capacity.Get();              *)
+(*     if capacity <= 0 || capacity >= max return false  (returning unlocks)                                     *)
 G4(c, a) ==
   /\ pc[c] = "g4" /\ a = 0
-  /\ old' = [old EXCEPT ![c] = capacity]          \* ghost use of old: what the test saw
-  /\ IF capacity < 0 \/ capacity >= MaxCap THEN Goto(c, "g7") /\ lock' = "none"
+  /\ old' = [old EXCEPT ![c] = capacity]
+  /\ IF capacity <= 0 \/ capacity >= MaxCap THEN Goto(c, "g7") /\ lock' = "none"
      ELSE Goto(c, "g5") /\ UNCHANGED lock
   /\ UNCHANGED <<ch, closed, todo, nextRes, slot, rnd, tgt, cnt>> /\ uCtr /\ uEnv /\ uGhost
 
-(* g5: rp.capacity.Add(1) *)
+(* g5: if rp.capacity.CompareAndSwap(capacity, capacity+1) break  -- else back to g4 *)
 G5(c, a) ==
   /\ pc[c] = "g5" /\ a = 0
-  /\ capacity' = capacity + 1
-  /\ stale' = IF stale # "" THEN stale
-              ELSE IF capacity = 0 /\ old[c] = 0 THEN "admitted-at-0"
-              ELSE IF capacity = 0 THEN "raced-to-0"
-              ELSE IF capacity >= MaxCap THEN "raced-to-max"
-              ELSE IF \E q \in Scalers : pc[q] = "s3" THEN "shrink-pending"
-              ELSE ""
-  /\ Goto(c, "g6")
+  /\ IF capacity = old[c]
+     THEN /\ capacity' = capacity + 1
+          /\ stale' = IF stale # "" THEN stale
+                      ELSE IF capacity = 0 /\ old[c] = 0 THEN "admitted-at-0"      \* unreachable since the repair
+                      ELSE IF capacity = 0 THEN "raced-to-0"                       \* unreachable since the repair
+                      ELSE IF capacity >= MaxCap THEN "raced-to-max"               \* unreachable since the repair
+                      ELSE IF \E q \in Scalers : pc[q] = "s3" THEN "shrink-pending"
+                      ELSE ""
+          /\ Goto(c, "g6")
+     ELSE Goto(c, "g4") /\ UNCHANGED <<capacity, stale>>
   /\ UNCHANGED <<ch, closed, available, inUse, baseCap, lock, todo, nextRes, slot, rnd, held, panic>> /\ uScale /\ uEnv
 
 (* g6: rp.available.Add(1); scaleOutTime = now; return wrapper{}, true (unlocking) *)
@@ -444,13 +447,16 @@ SlotsConserved ==   \* every slot is in the channel or in some process's hand, a
   (\A p \in Scalers : pc[p] \notin {"s3", "s4", "s5"}) /\ (\A c \in Clients : pc[c] \notin {"g6"}) /\ panic = <<>>
     => Len(ch) + Cardinality({p \in Procs : slot[p] >= 0}) = capacity
 
-(* root cause of the known defects: AddCapacityResource incremented a capacity that was 0 (pool closing or     *)
-(* closed), already MaxCap (a concurrent grow), or lowered by a ScaleCapacity whose slots are not removed yet; *)
+(* root cause of the known defects: AddCapacityResource incremented a capacity that was lowered by a            *)
+(* ScaleCapacity whose slots are not removed yet (before fix 98e158f also: a capacity that was 0 - pool closing  *)
+(* or closed - or already MaxCap after a concurrent grow; the repaired test-and-CAS loop excludes those);        *)
 (* or Close / a growing SetCapacity swapped the capacity while another ScaleCapacity still had slots to remove  *)
 (* (the channel is closed before an outstanding resource is returned / holds a slot too many); or the scale-in   *)
 (* goroutine, which re-reads the capacity after the tick's test, shrank the pool below baseCapacity (down to 0 = *)
 (* it closes the pool).                                                                                          *)
 NoRootCause == stale = ""
+(* the three causes removed by fix 98e158f stay unreachable *)
+RepairHolds == stale \notin {"admitted-at-0", "raced-to-0", "raced-to-max"}
 
 TypeOK == /\ capacity \in -1..(MaxCap + 2) /\ Len(ch) <= MaxCap
           /\ lock \in Procs \cup {"none"}
